@@ -1,3 +1,4 @@
+import Driver.Ops.Addr
 import Driver.Ops.Cidr
 import Driver.Ops.Conc
 import Driver.Ops.Lifecycle
@@ -11,6 +12,7 @@ output line: {"ok": <result>} or {"err": "<message>"}.
 open Lean Driver
 
 def allOps : List (String × Op) :=
+  Driver.Addr.ops ++
   Driver.Cidr.ops ++
   Driver.Conc.ops ++
   Driver.Lifecycle.ops ++
